@@ -122,12 +122,16 @@ fn guarded<T>(f: impl FnOnce() -> T) -> Result<T, Panic> {
 /// for which a timeout claim had already been generated, and says nothing about delivery equivalence.
 fn on_panic(p: Panic, ctx: &mut Ctx, title: &str, r: &Runner, debug: bool) -> CaseResult {
 	let lp = take_last_panic();
-	let foreign = lp.as_ref().map(|(m, _)| m.contains("never broadcast a transaction before its locktime")).unwrap_or(false);
+	let locktime = lp.as_ref().map(|(m, _)| m.contains("never broadcast a transaction before its locktime")).unwrap_or(false);
+	// a panic while one of the *other* nodes (always told every block in one fixed style) handles a block or a
+	// message is not a statement about how the observed node was told about the chain
+	let other_node = !observed_node_active();
 	if debug {
 		dump(title, r);
 	}
-	if foreign && std::env::var("VERIF_DEBUG_FOREIGN").is_err() {
-		ctx.label("foreign-failure:C07:broadcast-before-locktime-after-reorg");
+	if (locktime || other_node) && std::env::var("VERIF_DEBUG_FOREIGN").is_err() {
+		let loc = lp.as_ref().map(|(_, l)| l.rsplit('/').next().unwrap_or("").to_string()).unwrap_or_default();
+		ctx.label(&if locktime { "foreign-failure:C07:broadcast-before-locktime-after-reorg".to_string() } else { format!("foreign-failure:C07:panic-in-unobserved-node@{}", loc) });
 		return Ok(());
 	}
 	set_last_panic(lp);
@@ -300,7 +304,7 @@ fn main() {
 			rule: "pair / line-of-3 worlds, traffic leaving pending HTLCs, force close by either side (told or silent) or none, chain script of mined candidate sets, runs of empty blocks, jumps to HTLC expiries, late claims and forks of depth 1..6 whose competing branch re-mines / delays / replaces by a conflicting spend / drops each removed transaction; 3-4 replicas: plain Listen, the eleven ConnectStyles switched per step, Confirm/Listen mixes (filtered, duplicated, split, best-block first or skipped, per-tx unconfirm, fork-point disconnect in one or several calls, lagging), and one that only ever sees the final chain. Non-trivial: a reorg removed >=1 channel transaction and replicas with different call schedules were compared at a common tip afterwards",
 			quick_cases: 900,
 			thorough_cases: 30_000,
-			max_shrink: 200,
+			max_shrink: 40,
 		},
 		|| strat(13),
 		oracle,
